@@ -1,4 +1,81 @@
-import Uds.Model.DecodeDtc
+import Uds.Lemmas.Loops
+/-
+  C02 — well-formed positive responses decode to exactly the values the server encoded.
+  `interpret (Spec.encode v) = v` for arbitrary record lists (by induction), field values and widths.
+-/
 namespace Uds.Props.C02
-theorem placeholder : True := trivial
+open Uds Uds.Model Uds.Spec
+
+/-! ### ReadDTCInformation, availability mask + DTC records (sub-functions 02, 0A–0F, 13, 15 and 08, 09; with MemorySelection: 17) -/
+
+/-- the record list survives, in order and in number, whatever its length -/
+theorem records_loop_roundtrip (tol ign six sf09 first : Bool) (rs : List DtcRec) (acc : List DtcRec)
+    (hr : ∀ r ∈ rs, RecOk six r ∧ recNonZero six ign r) :
+    recordLoop tol ign six sf09 first (encRecs six rs) acc = .ok (acc.reverse ++ rs) := by
+  have := recordLoop_prefix tol ign six sf09 first rs [] acc hr
+  rw [List.append_nil] at this
+  rw [this, recordLoop_nil]; simp
+
+theorem records_roundtrip (c : DtcCfg) (sf : Nat) (six : Bool) (e av : UInt8) (rs : List DtcRec) (hms : hasMemSel sf = false)
+    (hr : ∀ r ∈ rs, RecOk six r ∧ recNonZero six c.ign r) :
+    recordsInterpret c sf six ([e, av] ++ encRecs six rs) =
+      .ok { sfEcho := e.toNat, statusAvail := some av.toNat, count := rs.length, dtcs := rs } := by
+  unfold recordsInterpret
+  have hlen : ¬ (([e, av] ++ encRecs six rs).length < 2) := by simp
+  simp only [hms, Bool.false_eq_true, if_false, optByte]
+  have hg : guardPy (decide (([e, av] ++ encRecs six rs).length < 2)) PyErr.invalid = .ok () := guardPy_ok.2 (by simp)
+  simp only [List.cons_append, List.nil_append] at hg ⊢
+  simp only [idx, List.getElem?_cons_zero, List.getElem?_cons_succ, hg, bind, Except.bind, pure, Except.pure, List.drop_succ_cons, List.drop_zero]
+  rw [records_loop_roundtrip _ _ _ _ _ rs [] hr]
+  simp
+
+theorem records_roundtrip_memsel (c : DtcCfg) (sf : Nat) (six : Bool) (e ms av : UInt8) (rs : List DtcRec) (hms : hasMemSel sf = true)
+    (hr : ∀ r ∈ rs, RecOk six r ∧ recNonZero six c.ign r) :
+    recordsInterpret c sf six ([e, ms, av] ++ encRecs six rs) =
+      .ok { sfEcho := e.toNat, memSel := some ms.toNat, statusAvail := some av.toNat, count := rs.length, dtcs := rs } := by
+  unfold recordsInterpret
+  simp only [hms, if_true, optByte]
+  have hg : guardPy (decide (([e, ms, av] ++ encRecs six rs).length < 3)) PyErr.invalid = .ok () := guardPy_ok.2 (by simp)
+  simp only [List.cons_append, List.nil_append] at hg ⊢
+  simp only [idx, List.getElem?_cons_zero, List.getElem?_cons_succ, hg, bind, Except.bind, pure, Except.pure, List.drop_succ_cons, List.drop_zero]
+  rw [records_loop_roundtrip _ _ _ _ _ rs [] hr]
+  simp
+
+/-! ### number of DTC (sub-functions 01, 07, 11, 12) -/
+
+theorem count_roundtrip (e av fmt : UInt8) (n : Nat) (hn : n < 65536) :
+    countInterpret ([e, av, fmt] ++ toBE 2 n) = .ok { sfEcho := e.toNat, statusAvail := some av.toNat, format := some fmt.toNat, count := n } := by
+  unfold countInterpret
+  have hg : guardPy (decide (([e, av, fmt] ++ toBE 2 n).length < 5)) PyErr.invalid = .ok () := guardPy_ok.2 (by simp)
+  have hs : slice ([e, av, fmt] ++ toBE 2 n) 3 5 = toBE 2 n := by
+    simp [slice, List.take_of_length_le]
+  have hu : unpackBE 2 (toBE 2 n) = .ok n := by
+    simp [unpackBE, fromBE_toBE_of_lt (show n < 256 ^ 2 by omega), pure, Except.pure]
+  simp only [hs, hu, hg, bind, Except.bind, pure, Except.pure]
+  simp [idx, pure, Except.pure]
+
+/-! ### RequestDownload / RequestUpload: maxNumberOfBlockLength is unsigned on 1..8 bytes -/
+
+theorem xfer_roundtrip (w v : Nat) (hw : 1 ≤ w ∧ w ≤ 8) (hv : v < 256 ^ w) : xferInterpret (encMaxLen w v) = .ok (.xfer v) := by
+  unfold xferInterpret encMaxLen
+  have hb : (UInt8.ofNat (w * 16)).toNat = w * 16 := toNat_ofNat_lt (by omega)
+  have hlen : ([UInt8.ofNat (w * 16)] ++ toBE w v).length = 1 + w := by simp; omega
+  have hg1 : guardPy (decide (([UInt8.ofNat (w * 16)] ++ toBE w v).length < 1)) PyErr.invalid = .ok () := guardPy_ok.2 (by simp)
+  have hi : idx ([UInt8.ofNat (w * 16)] ++ toBE w v) 0 = .ok (UInt8.ofNat (w * 16)) := by simp [idx, pure, Except.pure]
+  have hsh : (w * 16) >>> 4 = w := by rw [Nat.shiftRight_eq_div_pow]; omega
+  have hnw : ¬ w > 8 := by omega
+  have hg2 : guardPy (decide (w > 8)) PyErr.notImpl = .ok () := guardPy_ok.2 (by simp [hnw])
+  have hg3 : guardPy (decide (([UInt8.ofNat (w * 16)] ++ toBE w v).length < w + 1)) PyErr.invalid = .ok () := guardPy_ok.2 (by simp)
+  have hr : readUIntAt ([UInt8.ofNat (w * 16)] ++ toBE w v) 1 w = .ok v := by
+    unfold readUIntAt
+    have : 1 + w ≤ ([UInt8.ofNat (w * 16)] ++ toBE w v).length := by omega
+    simp only [this, if_true]
+    simp [List.take_of_length_le, fromBE_toBE_of_lt hv]
+  simp only [hg1, hi, hb, hsh, hg2, hg3, hr, bind, Except.bind, pure, Except.pure]
+
+/-! ### non-vacuity -/
+example : RecOk false { id := 0x123456, status := 0x20 } ∧ recNonZero false true { id := 0x123456, status := 0x20 } := by
+  refine ⟨⟨by decide, by decide, rfl, rfl, rfl, by simp⟩, by unfold recNonZero; decide⟩
+example : xferInterpret (encMaxLen 8 (2 ^ 64 - 1)) = .ok (.xfer (2 ^ 64 - 1)) := xfer_roundtrip 8 _ (by decide) (by decide)
+
 end Uds.Props.C02
